@@ -72,5 +72,23 @@ SingleRun(re, m, p) ==
      /\ Strip(EmphText(m)) = Strip(Flat(X))
      /\ Strip(EmphText(p)) = Strip(Flat(Y))
 
+\* "(give or take adjacent whitespace)": two changed stretches with nothing but the same blanks between them are one
+\* run - X = A \o W \o B, Y = C \o W \o D with W blank tokens only, A, B, C, D non-empty, without blanks, and A, B
+\* sharing no token with C, D.  (edits.rs::annotate gives an unchanged blank section between a deletion + insertion and
+\* further changes the emphasis of its neighbours.)
+IsBlankTok(tok) == \A k \in DOMAIN tok : IsWs(tok[k])
+BlankIdx(X) == {i \in DOMAIN X : IsBlankTok(X[i])}
+Interior(X) == LET w == BlankIdx(X) IN
+  /\ w # {} /\ 1 \notin w /\ Len(X) \notin w
+  /\ \A i, k \in w : \A j \in i..k : j \in w
+BlankRun(X) == LET w == BlankIdx(X) IN SelectSeq([i \in DOMAIN X |-> IF i \in w THEN X[i] ELSE <<>>], LAMBDA z : z # <<>>)
+NonBlank(X) == {X[i] : i \in DOMAIN X \ BlankIdx(X)}
+JoinedRun(re, m, p) ==
+  LET mid == Middle(Tokens(re, m.t), Tokens(re, p.t)) X == mid[1] Y == mid[2] IN
+  (m.p /\ p.p /\ Interior(X) /\ Interior(Y) /\ BlankRun(X) = BlankRun(Y) /\ NonBlank(X) \cap NonBlank(Y) = {}) =>
+     /\ OneStretch(m) /\ OneStretch(p)
+     /\ Strip(EmphText(m)) = Strip(Flat(X))
+     /\ Strip(EmphText(p)) = Strip(Flat(Y))
+
 Identical(m, p) == m.t = p.t
 =============================================================================
